@@ -414,3 +414,62 @@ def r13_paths(toks, log, paths):
         if not matched:
             out.append(toks[i]); i += 1
     return out
+
+
+def r15_serde_names(toks, log):
+    """R15: the serde names of an enum (rename / alias / rename_all / other attributes, which R6 drops) are emitted as
+    generated spec functions next to the enum, so that the name table itself is under contract."""
+    i = 0
+    n = len(toks)
+    rename_all = None
+    while toks[i].text != "enum":
+        if toks[i].text == "serde" and toks[i + 1].text == "(":
+            c = match_close(toks, i + 1)
+            for k in range(i + 2, c):
+                if toks[k].text == "rename_all":
+                    rename_all = toks[k + 2].text.strip('"')
+        i += 1
+    like = toks[i]
+    name = toks[i + 1].text
+    b = i + 2
+    while toks[b].text != "{":
+        b += 1
+    close = match_close(toks, b)
+    variants = []
+    k = b + 1
+    cur = {"names": None, "aliases": [], "other": False}
+    while k < close:
+        t = toks[k]
+        if t.text == "#":
+            c = match_close(toks, k + 1)
+            if toks[k + 2].text == "serde":
+                j = k + 4
+                while j < c - 1:
+                    if toks[j].text == "rename" and toks[j + 1].text == "=":
+                        cur["names"] = toks[j + 2].text; j += 3; continue
+                    if toks[j].text == "alias" and toks[j + 1].text == "=":
+                        cur["aliases"].append(toks[j + 2].text); j += 3; continue
+                    if toks[j].text == "other":
+                        cur["other"] = True
+                    j += 1
+            k = c + 1
+            continue
+        if t.kind == "id":
+            v = t.text
+            nm = cur["names"]
+            if nm is None:
+                nm = '"%s"' % (v.lower() if rename_all == "lowercase" else v.upper() if rename_all == "UPPERCASE" else v)
+            variants.append((v, [nm] + cur["aliases"], cur["other"]))
+            cur = {"names": None, "aliases": [], "other": False}
+            # skip to next comma at depth 0
+            while k < close and toks[k].text != ",":
+                if toks[k].text in OPEN:
+                    k = match_close(toks, k)
+                k += 1
+        k += 1
+    arms = "".join("        %s::%s => seq![%s],\n" % (name, v, ", ".join(x + "@" for x in names)) for v, names, _ in variants)
+    arms2 = "".join("        %s::%s => %s,\n" % (name, v, "true" if o else "false") for v, _, o in variants)
+    text = ("\n/*R15: generated from the serde attributes of enum %s*/\nspec fn serde_names__%s(v: %s) -> Seq<Seq<char>> {\n    match v {\n%s    }\n}\n"
+            "spec fn serde_other__%s(v: %s) -> bool {\n    match v {\n%s    }\n}\n") % (name, name, name, arms, name, name, arms2)
+    log.add("R15", like, "serde name table of " + name)
+    return gen(text, like, "\n")
